@@ -17,7 +17,7 @@ global size_of usize == 8;
 //@include prelude/script_types.inc
 //@include prelude/tokens.inc
 
-pub mod opcodes { pub use super::ClassifyContext; }
+pub mod opcodes { pub use super::ClassifyContext; pub use super::all; }
 pub use Class::{IllegalOp, ReturnOp};
 
 /// debug_assert!(c): panics in debug builds when c is false
@@ -102,8 +102,13 @@ pub open spec fn wit_ver(b: Seq<u8>) -> Option<int> {
 pub open spec fn t_p2wpkh(b: Seq<u8>) -> bool { b.len() == 22 && wit_ver(b) == Some(0int) && b[1] == 0x14 }
 pub open spec fn t_p2wsh(b: Seq<u8>) -> bool { b.len() == 34 && wit_ver(b) == Some(0int) && b[1] == 0x20 }
 pub open spec fn t_p2tr(b: Seq<u8>) -> bool { b.len() == 34 && wit_ver(b) == Some(1int) && b[1] == 0x20 }
-/// bare m-of-n multisig (rust-bitcoin Script::is_multisig; CBMC cannot run it -- trusted)
-pub uninterp spec fn t_multisig(b: Seq<u8>) -> bool;
+/// rust-bitcoin Script::is_multisig (CBMC cannot run it -- trusted): OP_m, k pushes, one opcode, OP_CHECKMULTISIG, with
+/// m <= k, and k == n only checked when that opcode is OP_n
+pub uninterp spec fn t_multisig_crate(b: Seq<u8>) -> bool;
+/// bare m-of-n multisig of the property: the crate's template with a numeric n (the opcode in front of OP_CHECKMULTISIG)
+pub open spec fn t_multisig(b: Seq<u8>) -> bool {
+    t_multisig_crate(b) && b.len() >= 2 && 0x51 <= b[b.len() - 2] <= 0x60
+}
 /// first opcode makes the script unspendable (OP_RETURN-class or illegal opcode)
 pub open spec fn t_unspendable(b: Seq<u8>) -> bool {
     b.len() > 0 && (class_of(b[0]) == Class::ReturnOp || class_of(b[0]) == Class::IllegalOp)
@@ -175,7 +180,7 @@ impl Script {
     #[verifier::external_body]
     pub fn is_witness_program(&self) -> (r: bool) ensures r == (wit_ver(self.b@) is Some) { unimplemented!() }
     #[verifier::external_body]
-    pub fn is_multisig(&self) -> (r: bool) ensures r == t_multisig(self.b@) { unimplemented!() }
+    pub fn is_multisig(&self) -> (r: bool) ensures r == t_multisig_crate(self.b@) { unimplemented!() }
 }
 impl Address {
     #[verifier::external_body]
@@ -265,6 +270,14 @@ pub open spec fn ref_btc_ok(res: EvaluatedScript, b: Seq<u8>, net: Network) -> b
             (single_push(bytes@) matches Some(p) ==> (r.pattern matches ScriptPattern::OpReturn(s) && payload_text(p, s))),
         //# C14:evaluation_never_fails
         !(r.pattern is Error),
+//@end
+
+//@extract fn src/blockchain/proto/script/mod.rs :: - :: multisig_key_count_is_numeric
+//@vis pub
+//@spec
+    ensures
+        //# C05:multisig_needs_a_numeric_key_count
+        r == (script.b@.len() >= 2 && 0x51 <= script.b@[script.b@.len() - 2] <= 0x60),
 //@end
 
 //@extract fn src/blockchain/proto/script/mod.rs :: - :: eval_from_bytes_bitcoin
